@@ -205,7 +205,7 @@ impl Prop for Collisions {
         "C14/collisions".into()
     }
     fn rule(&self) -> String {
-        "an accepted program plus one injected collision: a second type / enum / extern type with the name of an existing item of the same module (before or after it), a user type named <T>Vftable next to a T that declares a vftable block, or a second extern value of an existing name. Oracle: the build is an error (never Ok with one of the two definitions silently missing). Every case is non-trivial".into()
+        "an accepted program plus one injected collision: a second type / enum / extern type with the name of an existing item of the same module (before or after it), a body-less attribute-less `type Name;` in front of or behind the definition of a struct of that name, a user type named <T>Vftable next to a T that declares a vftable block, or a second extern value of an existing name. Oracle: the build is an error (never Ok with one of the two definitions silently missing). Every case is non-trivial".into()
     }
     fn gen(&self, t: &mut Tape) -> CollisionCase {
         let w = if t.chance(1, 2) { 8 } else { 4 };
@@ -238,6 +238,12 @@ impl Prop for Collisions {
         if !with_vals.is_empty() && t.chance(1, 6) {
             kind = 99;
         }
+        // one case in six: a body-less declaration `type Name;` (no attributes) of an existing struct, in front of
+        // or behind its definition
+        let victim_is_struct = prog.mods[mi].types().any(|t| t.name == name);
+        if kind != 99 && victim_is_struct && t.chance(1, 6) {
+            kind = 98;
+        }
         let m = &mut prog.mods[mi];
         match kind {
             99 => {
@@ -251,6 +257,20 @@ impl Prop for Collisions {
                     prog.mods[vm].ext_vals.insert(0, ev)
                 } else {
                     prog.mods[vm].ext_vals.push(ev)
+                }
+            }
+            98 => {
+                what = format!("body-less declaration of {name} {} its definition", if front { "in front of" } else { "behind" });
+                let it = Item::Type(TypeDef {
+                    sty: 0x10,
+                    vis: t.chance(1, 2),
+                    name: name.clone(),
+                    ..Default::default()
+                });
+                if front {
+                    m.items.insert(0, it)
+                } else {
+                    m.items.push(it)
                 }
             }
             0 => {
